@@ -763,8 +763,10 @@ impl Model<Rust> {
             }
 
             AsnType::SequenceOf(asn, size) => {
+                // an inline element type needs a name of its own
+                let element = format!("{}Element", name);
                 let inner = RustType::Vec(
-                    Box::new(Self::definition_type_to_rust_type(name, asn, tag, ctxt)),
+                    Box::new(Self::definition_type_to_rust_type(&element, asn, tag, ctxt)),
                     size.clone(),
                     EncodingOrdering::Keep,
                 );
@@ -772,8 +774,10 @@ impl Model<Rust> {
             }
 
             AsnType::SetOf(asn, size) => {
+                // an inline element type needs a name of its own
+                let element = format!("{}Element", name);
                 let inner = RustType::Vec(
-                    Box::new(Self::definition_type_to_rust_type(name, asn, tag, ctxt)),
+                    Box::new(Self::definition_type_to_rust_type(&element, asn, tag, ctxt)),
                     size.clone(),
                     EncodingOrdering::Sort,
                 );
